@@ -18,3 +18,7 @@ claim("C02", "runtime monitoring: seeded boundary-directed JDE/civil-instant wor
       "About 2e5 (quick) / 4e6 (thorough) instants concentrated within ulps..seconds of day, month, year boundaries and the 1582 reform go through Epoch(j) -> get_full_date() -> Epoch(fields); field ranges, the day-counter instant of the fields and the round trip are checked per call and the sorted log is checked offline for a never-decreasing date tuple. 25 constructor/set/check_input_date forms of one civil instant are compared, and +, -, +=, -=, reflected add, Epoch-Epoch, six comparisons and hash are checked on generated operands.",
       "trusts the day counter; Epoch pairs closer than 1e-6 day but unequal are not compared (documented 1e-10 equality tolerance)",
       "DESIGN.md section 3 C02")
+claim("C03", "runtime monitoring: icontract class invariant on Angle + exact-rational reference model for every constructor form and operator, on seeded boundary-seeking operands",
+      "Every constructor form (decimal, radians, hours, 2/3/4 sexagesimal pieces as arguments/tuple/list, sign on any piece) and 21 operator forms x {Angle,int,float} operands are executed on ~3e5 (quick) / 6e6 (thorough) generated inputs concentrated on multiples of 360, ulp neighbours, denormals and overflowing pieces; results are compared with exact Fraction/Decimal arithmetic mod 360 and operand snapshots; the class invariant -360 < value < 360 is evaluated after every public Angle method (4e7 evaluations per quick run), including on Angles built inside real Coordinates/Sun/Moon calls.",
+      "tolerance 1e-9*max(1,|exact|); divisors 0<|b|<1e-9 not generated; powers judged only where a real result <= 1e15 exists",
+      "DESIGN.md section 3 C03")
